@@ -123,7 +123,8 @@ GC = {
             }
         }
     }'''],
-    'expect': {'loops': []},
+    'expect': {'loops': [], 'contains': ['can_castle(board, &CastlingType::WhiteKingSide)', 'WHITE_KING_SIDE_CASTLE_ALG', 'can_castle(board, &CastlingType::WhiteQueenSide)', 'WHITE_QUEEN_SIDE_CASTLE_ALG',
+                                         'can_castle(board, &CastlingType::BlackKingSide)', 'BLACK_KING_SIDE_CASTLE_ALG', 'can_castle(board, &CastlingType::BlackQueenSide)', 'BLACK_QUEEN_SIDE_CASTLE_ALG']},
 }
 # the push hints also record castle_of for the completeness/distinctness argument
 P = ('C01', 'C02', 'C05')
